@@ -188,7 +188,7 @@ struct Ctx
 	std::string last_fail_case, last_fail_clause, last_fail_msg;
 
 	int cur_fd = -1;
-	unsigned case_timeout = 120;
+	unsigned case_timeout = 200;
 	// wall-clock budget of the whole worker: a safety net under the case counts (which bound a campaign); running into
 	// it is reported (label not_run_time_budget, exhaustive = false) and never a violation
 	std::chrono::steady_clock::time_point started = std::chrono::steady_clock::now();
